@@ -14,6 +14,10 @@ import (
 // ConfirmRuns is how many times a stuck case is re-run alone before it is believed.
 var ConfirmRuns = 2
 
+// MaxStuck ends the exploration early (marking the run non-exhaustive) once this many cases were
+// confirmed stuck: each costs its full deadline several times and the violation is established.
+var MaxStuck = 6
+
 // CaseResult is what a worker reports for one case.
 type CaseResult struct {
 	Type       string           `json:"type"` // start | done
@@ -140,6 +144,7 @@ func RunSharded(r *Run, n int, workerArgs []string, caseTimeout time.Duration, m
 		}
 	}
 	var wg sync.WaitGroup
+	stuckCount := 0
 	for s := 0; s < workers; s++ {
 		wg.Add(1)
 		go func(shard int) {
@@ -166,7 +171,19 @@ func RunSharded(r *Run, n int, workerArgs []string, caseTimeout time.Duration, m
 				if confirmed {
 					mu.Lock()
 					onStuck(stuck, label, how)
+					stuckCount++
+					over := stuckCount >= MaxStuck
 					mu.Unlock()
+					if over {
+						r.Capped(fmt.Sprintf("stopped after %d cases did not return", MaxStuck))
+						return
+					}
+				}
+				mu.Lock()
+				over := stuckCount >= MaxStuck
+				mu.Unlock()
+				if over {
+					return
 				}
 				from = stuck + 1
 			}
